@@ -8,6 +8,8 @@ From Coq Require Import List NArith ZArith QArith Bool Floats Permutation Sorted
 From Pcfg Require Import ProbAlg F64 TextFile Counters CountersProofs LtallyProofs IoFloatFacts CountersF64 IoFacts.
 From Pcfg Require Import SmallGenProofsProbs.
 From PcfgGen Require Import Small_probs_gen.
+From Pcfg Require Import WriterRt WriterSpec WriterGenProofsStruct.
+From PcfgGen Require Import WriterStruct_gen.
 Import ListNotations.
 
 (* A list written from the tally of an item sequence: the lines are
@@ -173,6 +175,91 @@ Example C06_source_F64_example :
   [([97], 0x1.999999999999ap-2%float); ([98], 0x1.999999999999ap-2%float); ([99], 0x1.999999999999ap-3%float)]%N.
 Proof. exact small_F64_example. Qed.
 
+(* ---- translator tie (harness/translate_writer.py, gen/WriterStruct_gen.v): the Python text of
+   base_structure_creation (lib_trainer/base_structure.py), prince_evaluation
+   (lib_trainer/prince_metrics.py), the tail of PCFGPasswordParser.parse that counts the
+   structure, and the Markov block of run_trainer, translated on every run, ARE the model's
+   supported / structure, PRINCE tally, count_one and with_markov ---- *)
+
+(* on a section list whose sections are labelled (what the detectors leave) *)
+Theorem C06_source_base_structure_creation_is_model : forall sl : list section, Forall labelled sl ->
+  py_base_structure_creation sl = Ok (supported (labels_of sl), structure (labels_of sl)).
+Proof. exact struct_base_structure_creation_eq. Qed.
+
+(* a section without a label: the function raises, no structure is counted *)
+Theorem C06_source_base_structure_creation_raises : forall sl : list section,
+  (exists s, In s sl /\ ~ labelled s) -> exists e, py_base_structure_creation sl = Raise e.
+Proof. exact struct_base_structure_creation_raises. Qed.
+
+Theorem C06_source_prince_evaluation_is_model : forall (c : list (str * N)) (sl : list section),
+  py_prince_evaluation c sl = Ok (fold_left (fun c l => incr l c) (labels_of sl) c).
+Proof. exact struct_prince_evaluation_eq. Qed.
+
+Theorem C06_source_parse_tail_is_model : forall (p b r : list (str * N)) (sl : list section), Forall labelled sl ->
+  let s' := count_one {| sc_base := b; sc_raw := r; sc_prince := p |} (labels_of sl) in
+  py_parse_tail p b r sl = Ok (true, sc_prince s', sc_base s', sc_raw s').
+Proof. exact struct_parse_tail_eq. Qed.
+
+(* with OMEN n-grams the block goes on with the model's counter; without them and with a
+   coverage other than 1 run_trainer returns False before anything is saved *)
+Theorem C06_source_markov_block_is_model : forall (O : numops) (cov : num O) (n : N) (omen c : counter O),
+  (omen <> [] -> py_run_trainer_markov_block cov n omen c = Norm (with_markov cov n c)) /\
+  py_run_trainer_markov_block cov n [] c = (if neqb O cov (none O) then Norm c else Retn false).
+Proof. exact (fun O cov n omen c => conj (struct_markov_block_eq O cov n omen c) (struct_markov_block_no_omen O cov n c)). Qed.
+
+(* the calls of run_trainer, in the order of the source: N is file_input.num_passwords of a
+   finished pass, one parser, its pass, the Markov block, then save_pcfg_data(base_directory,
+   pcfg_parser, program_info['encoding'], program_info['save_sensitive']) *)
+Theorem C06_source_run_trainer_order : events_ok py_run_trainer_events = true.
+Proof. exact struct_run_trainer_events_ok. Qed.
+
+(* C06_markov_count over the translated block *)
+Theorem C06_source_markov_count : forall (cov : Q) (n : N) (omen c : counter QNum), omen <> [] ->
+  exists c', @py_run_trainer_markov_block QNum cov n omen c = Norm c' /\
+  ((cov == 1)%Q -> c' = c) /\
+  ((cov == 0)%Q -> c' = [(M_key, 1%Q)]) /\
+  (~ (cov == 1)%Q -> ~ (cov == 0)%Q ->
+     c' = dict_set M_key (inject_Z (Z.of_N n) / cov - inject_Z (Z.of_N n))%Q c /\
+     (inject_Z (Z.of_N n) / cov - inject_Z (Z.of_N n) == inject_Z (Z.of_N n) * (1 / cov - 1))%Q /\
+     (~ In M_key (map fst c) -> c' = c ++ [(M_key, (inject_Z (Z.of_N n) / cov - inject_Z (Z.of_N n))%Q)])) /\
+  ((0 < cov)%Q -> (cov < 1)%Q -> (0 < n)%N -> ~ In M_key (map fst c) -> (total c == inject_Z (Z.of_N n))%Q ->
+     exists p, In (M_key, p) (calc_probs c') /\ (p == 1 - cov)%Q).
+Proof. exact struct_markov_count. Qed.
+
+(* C06_unsupported_only_raw over the translated tail of parse, folded over the passwords *)
+Theorem C06_source_unsupported_only_raw : forall pws : list (list section), Forall (Forall labelled) pws ->
+  let S := fold_tail py_parse_tail pws in
+  let L := map labels_of pws in
+  (forall s, In s (map fst (sc_base S)) -> exists ls, In ls L /\ supported ls = true /\ s = structure ls) /\
+  (forall ls, In ls L -> supported ls = true -> In (structure ls) (map fst (sc_base S))) /\
+  (forall ls, In ls L -> In (structure ls) (map fst (sc_raw S))) /\
+  (Forall (fun ls => forallb wf_label ls = true) L ->
+     forall s, In s (map fst (sc_base S)) -> ~ In 69%N s /\ ~ In 87%N s) /\
+  (forall ls, In ls L -> supported ls = false -> In 69%N (structure ls) \/ In 87%N (structure ls)) /\
+  sc_base S = tally (map structure (filter supported L)) /\
+  sc_raw S = tally (map structure L) /\
+  sc_prince S = tally (List.concat L).
+Proof. exact struct_unsupported_only_raw. Qed.
+
+(* the hypotheses are satisfiable and the generated functions run *)
+Example C06_source_struct_example :
+  let l1 : list section := [([112;97;115;115], Some [65;52]); ([33], Some [79;49]); ([49;50], Some [68;50])]%N in
+  let l2 : list section := [([97;64;98;46;99;111;109], Some [69])]%N in
+  Forall (Forall labelled) [l1; l2] /\
+  py_base_structure_creation l1 = Ok (true, [65;52;79;49;68;50]%N) /\
+  py_base_structure_creation l2 = Ok (false, [69]%N) /\
+  sc_base (fold_tail py_parse_tail [l1; l2]) = [([65;52;79;49;68;50], 1)]%N /\
+  sc_raw (fold_tail py_parse_tail [l1; l2]) = [([65;52;79;49;68;50], 1); ([69], 1)]%N /\
+  @py_run_trainer_markov_block QNum (3 # 5)%Q 3 [([49]%N, 1%Q)] [([65;52]%N, 3%Q)] = Norm [([65;52]%N, 3%Q); ([77]%N, (3 / (3 # 5) - 3)%Q)].
+Proof. exact struct_example. Qed.
+
+Print Assumptions C06_source_base_structure_creation_is_model.
+Print Assumptions C06_source_prince_evaluation_is_model.
+Print Assumptions C06_source_parse_tail_is_model.
+Print Assumptions C06_source_markov_block_is_model.
+Print Assumptions C06_source_run_trainer_order.
+Print Assumptions C06_source_markov_count.
+Print Assumptions C06_source_unsupported_only_raw.
 Print Assumptions C06_each_once_sorted.
 Print Assumptions C06_source_calculate_probabilities_is_model.
 Print Assumptions C06_source_each_once_sorted.
